@@ -775,7 +775,9 @@ pub fn resolve(out: &mut impl Write, rng: &mut Rng, thorough: bool) {
     let valid_b = minimal_file(b'3', b"BBB-2CCC,M3.2.0/-1,M11.1.0/25");
     let invalid = b"TZif-not-really".to_vec();
     let truncated = valid_a[..valid_a.len() - 1].to_vec();
-    let contents: [Option<&Vec<u8>>; 5] = [None, Some(&valid_a), Some(&valid_b), Some(&invalid), Some(&truncated)];
+    // a readable but EMPTY file is a file: it wins the directory search and is refused as a TZif file
+    let empty: Vec<u8> = Vec::new();
+    let contents: [Option<&Vec<u8>>; 6] = [None, Some(&valid_a), Some(&valid_b), Some(&invalid), Some(&truncated), Some(&empty)];
     let dir_lists: Vec<Vec<&str>> = vec![vec![], vec!["/d1"], vec!["/d1", "/d2"], vec!["/d1", "/d2", "/d3"], vec!["/usr/share/zoneinfo", "/share/zoneinfo", "/etc/zoneinfo"], vec!["rel", "/d2"], vec!["/d1/", "/d1"]];
     let tzs: Vec<&str> = vec![
         "", "localtime", " localtime", "localtime ", ":localtime", ":", "::", ":/abs/file", "/abs/file", ":Zone/Name", "Zone/Name", " Zone/Name", "EST5EDT", ":EST5EDT", "EST5", " EST5 ", "\tEST5EDT,M3.2.0,M11.1.0\n", "EST5EDT,M3.2.0/-1,M11.1.0", "UTC0", "<+03>-3", "nonsense", "AAA", ":AAA3", "/", "é", "EST5\u{a0}", "\u{b}EST5", "EST5\u{c}",
